@@ -2,5 +2,10 @@
    bool, option, unit, list, prod, sumbool, sumor map to OCaml's; N/positive/nat stay Coq data). *)
 From Coq Require Import Extraction ExtrOcamlBasic.
 From FatVerif Require Import Model.Base Model.Time.
+(* C17 / C19: long-name builder, directory listing, its spec *)
+From FatVerif Require Import Model.Str Model.Slot Model.Lfn Spec.LfnSpec.
+(* ONE command listing every module: a second Separate Extraction would overwrite shared modules
+   (Time.ml ...) with only the definitions it needs *)
 Separate Extraction
-  Model.Base Model.Time.
+  Model.Base Model.Time
+  Model.Str Model.Slot Model.Lfn Spec.LfnSpec.
